@@ -190,6 +190,17 @@ func genC11(e *emitter, tier string) {
 			e.emit(opCase("cast-wide", "Cast", []Attr{{Name: "to", Type: "i", I: int64(onnxCode[src])}}, []*TJ{{Dt: src, Shape: []int{}, Data: []any{wide[src][i]}}}, nil))
 		}
 	}
+	// values NEXT to the limits of the 64-bit types (not the limits themselves): in range, so kept exactly by
+	// the 64-bit targets - a range test done in float64 cannot tell them from the limit
+	near := map[string][]any{
+		"i64": {"9223372036854775806", "9223372036854775295", "-9223372036854775807", "-9223372036854775508", "9223372036854774784", "-9223372036854774785", 1, -1},
+		"u64": {"18446744073709551614", "18446744073709550915", "18446744073709550592", "9223372036854775806", "9223372036854775807", "9223372036854775808", 1, 0},
+	}
+	for _, src := range []string{"i64", "u64"} {
+		for _, tgt := range []string{"i64", "u64", "f64", "f32"} {
+			e.emit(opCase("cast-near-limit", "Cast", []Attr{{Name: "to", Type: "i", I: int64(onnxCode[tgt])}}, []*TJ{{Dt: src, Shape: []int{8}, Data: append([]any{}, near[src]...)}}, nil))
+		}
+	}
 	// large float values that fit the 64-bit integer targets (beyond int64 for uint64)
 	for _, src := range []string{"f32", "f64"} {
 		e.emit(opCase("cast-fraction", "Cast", []Attr{{Name: "to", Type: "i", I: int64(onnxCode["u64"])}}, []*TJ{fT(src, []int{6}, []float64{1e19, 9223372036854775808, 1.8e19, 4294967296.5, 0.75, 9.3e18})}, nil))
